@@ -1,1 +1,168 @@
-/-! Property theorems for C11 (not built yet). -/
+import Cellml.C11.Groups5
+import Cellml.C11.Rejects
+import Cellml.C11.Rewrite
+
+/-! # C11 — generated Python code computes exactly what the expression means
+
+  Model: `C11.pr` / `C11.printDoc` (lean/Cellml/C11/Printer.lean) = `cellmlmanip/printer.py` after the three `fix:`
+  commits, producing a layout tree `Doc`; `C11.PyOK` = Python's expression grammar ("CPython parses the emitted string
+  to exactly this tree"); `C11.wf` = the printer's domain (well-sorted SymPy trees). Every theorem quantifies over ALL
+  expression trees (any depth, any parent/child/position combination). The tie to printer.py is
+  `harness/props/c11.py` (emitted string equal to the model's, CPython's `ast.parse` equal to the model's tree). -/
+
+namespace Cellml.Props.C11
+open _root_.C11
+
+/-! ## grouping -/
+
+/-- **print_groups**: whatever the printer emits for an expression of its domain is parsed by Python to exactly the
+    tree the printer built: no operand regroups, no sign moves, no comparison chains. -/
+theorem print_groups (e : E) (s : Srt) (hl : isList e = false) (hw : wf s e = true) (d : Doc)
+    (h : printDoc e = some d) : PyOK d = true := by
+  unfold printDoc at h
+  split at h
+  next hst =>
+    simp only [Option.some.injEq] at h; subst h
+    exact (Q_elim e (all_M e).1.1 hl s hw (by simpa using hst)).1
+  · cases h
+
+/-- the Python level of the emitted code is at least what SymPy's precedence promises the parent -/
+theorem print_level (e : E) (hl : isList e = false) (hw : wf .A e = true) (d : Doc) (h : printDoc e = some d) :
+    40 ≤ level d ∧ (50 ≤ precA e → 50 ≤ level d) ∧ (60 ≤ precA e → 55 ≤ level d) ∧ (61 ≤ precA e → 100 ≤ level d) := by
+  unfold printDoc at h
+  split at h
+  next hst =>
+    simp only [Option.some.injEq] at h; subst h
+    exact (Q_elim e (all_M e).1.1 hl .A hw (by simpa using hst)).2
+  · cases h
+
+/-! ## rejection -/
+
+/-- **print_rejects**: an expression containing, anywhere the printer looks, a construct without a `_print_` method
+    (`Not`, `nan`, `oo`, matrices, `Max`, …) or a function outside the name table is not printed: ValueError. -/
+theorem print_rejects (e : E) (h : bad false e = true) : printDoc e = none := by
+  have := (bad_rejects e false h).1
+  unfold printDoc; split
+  next hst => exact absurd (by simpa using hst) this
+  · rfl
+
+theorem rejects_other (w : String) : (pr (.other w)).st = .verr := rfl
+
+theorem rejects_unknown_function (name : String) (args : E) (h : fnName name = none) (ha : (pr args).st = .ok) :
+    (pr (.fn name args)).st = .verr := by
+  simp only [pr, h, ha]; rfl
+
+/-- a Piecewise is read up to its first `True` condition only: what follows is never printed, hence never rejected -/
+example : printStr (.pw (.cons (.pair (.sym "x" true) .tt) (.cons (.pair (.other "Matrix") (.other "Not")) .nil)))
+    = some "(x)" := by decide +kernel
+
+/-! ## the function-name table (generated from `Printer._function_names` on every run): each SymPy class is sent to the
+    `math` function (or builtin) with the same meaning — expected names written by hand here -/
+
+theorem fn_table_Abs : fnName "Abs" = some "abs" := by decide +kernel
+theorem fn_table_acos : fnName "acos" = some "math.acos" := by decide +kernel
+theorem fn_table_acosh : fnName "acosh" = some "math.acosh" := by decide +kernel
+theorem fn_table_asin : fnName "asin" = some "math.asin" := by decide +kernel
+theorem fn_table_asinh : fnName "asinh" = some "math.asinh" := by decide +kernel
+theorem fn_table_atan : fnName "atan" = some "math.atan" := by decide +kernel
+theorem fn_table_atan2 : fnName "atan2" = some "math.atan2" := by decide +kernel
+theorem fn_table_atanh : fnName "atanh" = some "math.atanh" := by decide +kernel
+theorem fn_table_ceiling : fnName "ceiling" = some "math.ceil" := by decide +kernel
+theorem fn_table_cos : fnName "cos" = some "math.cos" := by decide +kernel
+theorem fn_table_cosh : fnName "cosh" = some "math.cosh" := by decide +kernel
+theorem fn_table_exp : fnName "exp" = some "math.exp" := by decide +kernel
+theorem fn_table_expm1 : fnName "expm1" = some "math.expm1" := by decide +kernel
+theorem fn_table_factorial : fnName "factorial" = some "math.factorial" := by decide +kernel
+theorem fn_table_floor : fnName "floor" = some "math.floor" := by decide +kernel
+theorem fn_table_log : fnName "log" = some "math.log" := by decide +kernel
+theorem fn_table_log10 : fnName "log10" = some "math.log10" := by decide +kernel
+theorem fn_table_log1p : fnName "log1p" = some "math.log1p" := by decide +kernel
+theorem fn_table_log2 : fnName "log2" = some "math.log2" := by decide +kernel
+theorem fn_table_sin : fnName "sin" = some "math.sin" := by decide +kernel
+theorem fn_table_sinh : fnName "sinh" = some "math.sinh" := by decide +kernel
+theorem fn_table_sqrt : fnName "sqrt" = some "math.sqrt" := by decide +kernel
+theorem fn_table_tan : fnName "tan" = some "math.tan" := by decide +kernel
+theorem fn_table_tanh : fnName "tanh" = some "math.tanh" := by decide +kernel
+
+/-- nothing else is in the table -/
+theorem fn_table_keys : Cellml.Gen.printerFunctionNames.map Prod.fst =
+    ["Abs", "acos", "acosh", "asin", "asinh", "atan", "atan2", "atanh", "ceiling", "cos", "cosh", "exp", "expm1", "factorial", "floor", "log", "log10", "log1p", "log2", "sin", "sinh", "sqrt", "tan", "tanh"] := by decide +kernel
+
+theorem lit_table_pi : litName "pi" = "math.pi" := by decide +kernel
+theorem lit_table_e : litName "e" = "math.e" := by decide +kernel
+theorem lit_table_nan : litName "nan" = "float('nan')" := by decide +kernel
+theorem lit_table_keys : Cellml.Gen.printerLiteralNames.map Prod.fst = ["e", "nan", "pi"] := by decide +kernel
+
+/-! ## the secondary trigonometric functions (generated from `Printer._extra_trig`): each is rewritten by its definition,
+    f(W) ↦ 1/g(W) (`recip`) or f(W) ↦ g(1/W) (`ofRecip`) -/
+
+theorem extra_trig_sec : extraTrig "sec" = some ("recip", "cos") := by decide +kernel
+theorem extra_trig_csc : extraTrig "csc" = some ("recip", "sin") := by decide +kernel
+theorem extra_trig_cot : extraTrig "cot" = some ("recip", "tan") := by decide +kernel
+theorem extra_trig_sech : extraTrig "sech" = some ("recip", "cosh") := by decide +kernel
+theorem extra_trig_csch : extraTrig "csch" = some ("recip", "sinh") := by decide +kernel
+theorem extra_trig_coth : extraTrig "coth" = some ("recip", "tanh") := by decide +kernel
+theorem extra_trig_asec : extraTrig "asec" = some ("ofRecip", "acos") := by decide +kernel
+theorem extra_trig_acsc : extraTrig "acsc" = some ("ofRecip", "asin") := by decide +kernel
+theorem extra_trig_acot : extraTrig "acot" = some ("ofRecip", "atan") := by decide +kernel
+theorem extra_trig_asech : extraTrig "asech" = some ("ofRecip", "acosh") := by decide +kernel
+theorem extra_trig_acsch : extraTrig "acsch" = some ("ofRecip", "asinh") := by decide +kernel
+theorem extra_trig_acoth : extraTrig "acoth" = some ("ofRecip", "atanh") := by decide +kernel
+
+theorem extra_trig_keys : Cellml.Gen.printerExtraTrig.map (·.1) =
+    ["sec", "csc", "cot", "sech", "csch", "coth", "asec", "acsc", "acot", "asech", "acsch", "acoth"] := by decide +kernel
+
+/-! ## non-vacuity: concrete expressions of the domain, printed, and well grouped -/
+
+def x : E := .sym "x" true
+def y : E := .sym "y" true
+def z : E := .sym "z" true
+def lst : List E → E := fun xs => xs.foldr E.cons E.nil
+
+/-- the three repaired families now print with their brackets -/
+example : printStr (.pow (.pow x y) z) = some "(x**y)**z" := by decide +kernel
+example : printStr (.add (lst [x, .mul (lst [.int (-1), .add (lst [y, z])])])) = some "x - (y + z)" := by decide +kernel
+example : printStr (.mul (lst [z, .pow (.pow x (.int (-1))) (.int (-1))])) = some "z / (1 / x)" := by decide +kernel
+example : printStr (.mul (lst [x, .pow (.rat 1 3) (.int (-1))])) = some "x / (1 / 3)" := by decide +kernel
+/-- strings pinned by tests/test_printer.py are unchanged -/
+example : printStr (.mul (lst [.int (-2), x, .pow (.mul (lst [y, y])) (.int (-1))])) = some "-2 * x / (y * y)" := by
+  decide +kernel
+example : printStr (.mul (lst [x, .pow y (.rat (-2) 3)])) = some "x / y**(2 / 3)" := by decide +kernel
+example : printStr (.pw (lst [.pair (.int 0) (.rel .gt x (.int 0)), .pair (.int 1) (.rel .gt x (.int 1)),
+    .pair (.int 2) .tt])) = some "((0) if (x > 0) else ((1) if (x > 1) else (2)))" := by decide +kernel
+example : printStr (.rel .eq x (.rel .eq y z)) = some "x == (y == z)" := by decide +kernel
+
+def sample : E := .add (lst [x, .mul (lst [.int (-1), .add (lst [y, .pow (.pow x y) (.rat (-1) 2)])])])
+example : wf .A sample = true ∧ isList sample = false := by decide +kernel
+example : printStr sample = some "x - (y + 1 / math.sqrt(x**y))" := by decide +kernel
+example : (printDoc sample).map PyOK = some true := by decide +kernel
+example : bad false (.add (lst [x, .fn "gamma" (lst [y])])) = true := by decide +kernel
+
+/-! ## why the three `fix:` commits were needed: the bracketing rules as they were -/
+
+/-- before the fix `_print_ordinary_pow` bracketed the base only when it was strictly looser than a power -/
+def powDocOld (b pw : E) (bd xd : Doc) : Doc := .bin .pow (bracket b bd 60) (bracket pw xd 60)
+
+/-- `(x**y)**z` as printed before the fix -/
+def prOldTower : Doc := powDocOld (.pow x y) z (powDocOld x y (.atom "x") (.atom "y")) (.atom "z")
+
+theorem old_tower_string : flatten prOldTower = "x**y**z" := by decide +kernel
+/-- the counterexample: Python does not read `x**y**z` as the tree `(x**y)**z` -/
+theorem old_tower_regroups : PyOK prOldTower = false := by decide
+
+/-- before the fix a single denominator was bracketed like any operand of a product: `z * (1/x)**-1` -/
+def prOldDenominator : Doc := .bin .div (.atom "z") (bracket (.pow x (.int (-1))) (.bin .div (.atom "1") (.atom "x")) 50)
+
+theorem old_denominator_string : flatten prOldDenominator = "z / 1 / x" := by decide +kernel
+theorem old_denominator_regroups : PyOK prOldDenominator = false := by decide
+
+/-- before the fix the operands of `-1 * (y + z)` were bracketed with the precedence of what was left after taking out
+    the sign, a sum: no brackets, and the sum continued the surrounding sum -/
+def prOldNegSum : Doc :=
+  spliceSum (.atom "x") true (bracket (.add (lst [y, z])) (.bin .add (.atom "y") (.atom "z")) 40)
+
+theorem old_negsum_string : flatten prOldNegSum = "x - y + z" := by decide +kernel
+/-- Python reads it as `(x - y) + z`: the `z` has changed sign -/
+theorem old_negsum_tree : prOldNegSum = .bin .add (.bin .sub (.atom "x") (.atom "y")) (.atom "z") := by decide
+
+end Cellml.Props.C11
